@@ -24,8 +24,10 @@ def make_args(gate, rng, mode):
     for a in gc.GATE_ARGS[gate]:
         if a == "theta":
             # incl. the zero set of the theta denominators (0.0, -0.0) and the small-angle regime of the covariance matrices
+            # ... and angles of more than one turn (the rotation has period 4 pi, not 2 pi)
             v = rng.choice([rng.uniform(-7, 7), math.pi, -math.pi / 2, math.pi / 4, 0.0, -0.0, rng.uniform(-6e-4, 6e-4),
-                            rng.uniform(-1e-6, 1e-6)])
+                            rng.uniform(-1e-6, 1e-6), rng.choice([2 * math.pi + 0.3, -3 * math.pi, 4 * math.pi + 1.0, 9.0, -2 * math.pi,
+                                                                  rng.uniform(6.3, 26)])])
         elif a.startswith("phi"):
             v = rng.uniform(-7, 7)
         elif a in ("t_cnot", "t_ecr"):
@@ -55,17 +57,39 @@ def make_args(gate, rng, mode):
     return out
 
 
-def run_case(desc, gate, args, seed):
+def noisy_history(gs, hseed):
+    """every gate of the gate set is sampled once with ALL noise sources on (p, T1, T2, two-qubit and read-out error non-zero)"""
+    import random
+    r = random.Random(hseed)
+    np.random.seed(hseed)
+    for gate in gc.GATE_ARGS:
+        a = make_args(gate, r, "unitary")
+        for k in a:
+            if k.startswith("T1"):
+                a[k] = r.uniform(20e-6, 200e-6)
+            elif k.startswith("T2"):
+                a[k] = r.uniform(10e-6, 40e-6)
+        with np.errstate(all="ignore"):
+            getattr(gs, gate)(*[a[x] for x in gc.GATE_ARGS[gate]])
+
+
+def run_case(desc, gate, args, seed, after_noisy=None):
     gs = gc.build_gate_set(desc)
+    if after_noisy is not None:
+        if desc[0] in ("standard_gates", "numerical_gates"):      # module-level objects: use a private gate set of the same kind
+            from quantum_gates._gates.gates import Gates
+            from quantum_gates._gates.pulse import constant_pulse, constant_pulse_numerical
+            gs = Gates(constant_pulse if desc[0] == "standard_gates" else constant_pulse_numerical)
+        noisy_history(gs, after_noisy)
     np.random.seed(seed)
     with np.errstate(all="ignore"):
         return np.array(getattr(gs, gate)(*[args[a] for a in gc.GATE_ARGS[gate]]), dtype=complex)
 
 
-def oracle(desc, gate, args, seed, mode):
+def oracle(desc, gate, args, seed, mode, after_noisy=None):
     from quantum_gates._gates.gates import NoiseFreeGates
     try:
-        G = run_case(desc, gate, args, seed)
+        G = run_case(desc, gate, args, seed, after_noisy)
     except Exception as e:                      # noqa
         return f"raised {type(e).__name__}: {e}", None
     if mode == "zero":
@@ -130,6 +154,18 @@ def main(ctx):
                         worst[mode] = max(worst[mode], d)
                     if bad:
                         fails.append(({"kind": "oracle", "gate": gate, "mode": mode}, desc, gate, args, seed, mode, bad))
+    # history: the SAME gate-set object was sampled with every noise source on before it is asked for zero-noise / unitary samples
+    for desc in descs:
+        for gate in gc.GATE_ARGS:
+            for mode in ("zero", "unitary"):
+                args = make_args(gate, rng, mode)
+                seed, hseed = rng.randrange(2 ** 31), rng.randrange(2 ** 31)
+                bad, d = oracle(desc, gate, args, seed, mode, after_noisy=hseed)
+                ctx.count()
+                hist[f"{gate}/{mode}/after-noisy"] = hist.get(f"{gate}/{mode}/after-noisy", 0) + 1
+                if bad:
+                    fails.append(({"kind": "oracle", "gate": gate, "mode": mode + "-after-noisy"}, desc, gate, dict(args, _after_noisy=hseed), seed, mode,
+                                  bad + " (the same gate-set object had sampled every gate with all noise sources on before)"))
     for desc in descs:
         r = typed_angle_sequence(desc, rng)
         ctx.count()
@@ -180,6 +216,8 @@ def replay(ctx, path):
     rp = json.load(open(path))["replay"]
     if "gate" not in rp:
         print("replay names a broken obligation:", json.dumps(rp)[:400]); return 1
-    bad, d = oracle(rp["gate_set"], rp["gate"], rp["args"], rp["seed"], rp["mode"])
+    args = dict(rp["args"])
+    hseed = args.pop("_after_noisy", None)
+    bad, d = oracle(rp["gate_set"], rp["gate"], args, rp["seed"], rp["mode"], after_noisy=hseed)
     print("gate set", rp["gate_set"], "gate", rp["gate"], "args", rp["args"]); print("oracle:", bad or f"holds (deviation {d})")
     return 1 if bad else 0
